@@ -263,18 +263,19 @@ Qed.
 Lemma nth_map_F n (p : list va) : nth n (map F p) VNull = F (nth n p VNull).
 Proof. change (@VNull B) with (F VNull) at 1. apply map_nth. Qed.
 
+Lemma vjs_index_map p z : vjs_index (map F p) z = F (vjs_index p z).
+Proof. unfold vjs_index. destruct (z_index z); [apply nth_map_F | reflexivity]. Qed.
+
 Lemma vjs_reorder_map p c : vjs_reorder (map F p) (map F c) = map F (vjs_reorder p c).
 Proof.
   induction c as [|x t IH]; [reflexivity|]. cbn [map vjs_reorder]. rewrite IH, map_app. f_equal.
   destruct x as [| a | l | l].
   - reflexivity.
   - cbn [vmap]. rewrite (hom_num _ _ _ H). destruct (as_num a) as [z|]; [|reflexivity].
-    destruct (Z.eqb z (-1)); [reflexivity|]. unfold vjs_index. destruct (z_index z); [|reflexivity].
-    cbn [map]. rewrite nth_map_F. reflexivity.
+    destruct (Z.eqb z (-1)); [reflexivity|]. cbn [map]. rewrite vjs_index_map. reflexivity.
   - cbn [vmap]. destruct l as [|s [|c l']]; try reflexivity. cbn [map]. rewrite !vas_num_map.
     destruct (vas_num s) as [s'|]; [|reflexivity]. destruct (vas_num c) as [c'|]; [|reflexivity].
-    destruct (z_index s'); [|reflexivity]. destruct (z_index c'); [|reflexivity].
-    rewrite map_map. apply map_ext. intros i. apply nth_map_F.
+    rewrite map_map. apply map_ext. intros z. apply vjs_index_map.
   - rewrite vmap_obj. reflexivity.
 Qed.
 
